@@ -1222,7 +1222,7 @@ func c06Funnel(c *Ctx, r *Report, an *Anchors) {
 						okArg := true
 						for ai, a := range cc.Args {
 							if a == v {
-								if _, isW := callee.Params[ai].Type().Underlying().(*types.Interface); !isW {
+								if it, isW := callee.Params[ai].Type().Underlying().(*types.Interface); !isW || !hasMethod(it, "Write") {
 									okArg = false
 								}
 							}
@@ -1268,6 +1268,80 @@ func c06Funnel(c *Ctx, r *Report, an *Anchors) {
 					if mayBeStdout(call.Call.Args[ai]) {
 						recordCalls = append(recordCalls, call)
 					}
+				}
+			}
+		}
+	}
+	// (d0) the channel wrappers called by the command read the chosen input and write the
+	// output handle: a writer operand is an os.Create result or os.Stdout, a reader operand is
+	// os.Stdin (a bufio wrapper around either is the same channel)
+	var channelLeafOK func(v ssa.Value, want string, depth int) (bool, string)
+	channelLeafOK = func(v ssa.Value, want string, depth int) (bool, string) {
+		v = peel(v)
+		if depth > 8 {
+			return false, describeArg(v)
+		}
+		if ph, ok := v.(*ssa.Phi); ok {
+			for _, e := range ph.Edges {
+				if ok, why := channelLeafOK(e, want, depth+1); !ok {
+					return false, why
+				}
+			}
+			return true, ""
+		}
+		if want == "writer" {
+			if isOsFileGlobalLoad(v, "Stdout") {
+				return true, ""
+			}
+			if ex, ok := v.(*ssa.Extract); ok {
+				if call, ok := ex.Tuple.(*ssa.Call); ok && calleeKey(&call.Call) == "os.Create" && ex.Index == 0 {
+					return true, ""
+				}
+			}
+		} else if isOsFileGlobalLoad(v, "Stdin") {
+			return true, ""
+		}
+		if call, ok := v.(*ssa.Call); ok {
+			k := calleeKey(&call.Call)
+			if (want == "writer" && (k == "bufio.NewWriter" || k == "bufio.NewWriterSize")) || (want == "reader" && (k == "bufio.NewReader" || k == "bufio.NewReaderSize")) {
+				return channelLeafOK(call.Call.Args[0], want, depth+1)
+			}
+		}
+		return false, describeArg(v)
+	}
+	nChan := map[string]int{}
+	for _, w := range wl {
+		for _, call := range c.callersOf(w) {
+			if call.Parent() != cl {
+				continue
+			}
+			for ai, prm := range w.Params {
+				it, ok := prm.Type().Underlying().(*types.Interface)
+				if !ok || ai >= len(call.Call.Args) {
+					continue
+				}
+				want := ""
+				switch {
+				case hasMethod(it, "Write"):
+					want = "writer"
+				case hasMethod(it, "Read"):
+					want = "reader"
+				default:
+					continue
+				}
+				base := fmt.Sprintf("%s:call(%s):%s-operand", cl.Name(), w.Name(), want)
+				nChan[base]++
+				construct := base
+				if nChan[base] > 1 {
+					construct = fmt.Sprintf("%s#%d", base, nChan[base])
+				}
+				good, why := channelLeafOK(call.Call.Args[ai], want, 0)
+				if want == "writer" {
+					r.Check(good, "C06-R3", construct, c.InstrPos(call), "the records of this channel go to the output handle (an os.Create result or os.Stdout)",
+						"the writer operand of this channel is not the output handle (an os.Create result or os.Stdout): "+why)
+				} else {
+					r.Check(good, "C06-R3", construct, c.InstrPos(call), "the stdin channel reads os.Stdin",
+						"the reader operand of this channel is not os.Stdin: "+why)
 				}
 			}
 		}
